@@ -12,8 +12,10 @@ import (
 	"encoding/json"
 	"fmt"
 	"os"
+	"os/exec"
 	"path/filepath"
 	"regexp"
+	"slices"
 	"sort"
 	"strings"
 	"time"
@@ -292,6 +294,7 @@ func checkC06(e *Env, r *Report) {
 	seen := map[string]bool{}
 	srcIdx := sourceIndex(f.aug)
 	nProfiles, nExec := 0, 0
+	nParser, nParserSkipped := 0, 0
 	for _, d := range dists {
 		c := DefaultCfg(d)
 		c.Full = true
@@ -309,6 +312,11 @@ func checkC06(e *Env, r *Report) {
 			return
 		}
 		differing := differingTunables(env)
+		ov, err := tunablesOverlay(e, b.Out)
+		if err != nil {
+			r.Fatal = err.Error()
+			return
+		}
 		root := filepath.Join(b.Out, "apparmor.d")
 		for _, fn := range listFiles(root) {
 			if !isProfilePath(fn) {
@@ -345,6 +353,25 @@ func checkC06(e *Env, r *Report) {
 			seen[key] = true
 			local := env.withLocals(sItems)
 			diff, err := compareLang(local, []string{"@{exec_path}"}, env, built)
+			// the same question put to the reference parser itself: the expression it compiles for the attachment
+			// of a stub profile with the variable, and with the literal the build wrote, over the built tunables
+			if err == nil {
+				if pl, pa, perr := parserAttachDiff(e, ov, sItems, built, local, env); perr != nil {
+					nParserSkipped++
+				} else {
+					nParser++
+					for _, w := range pl {
+						if !slices.Contains(diff.Lost, w) && len(diff.Lost) < 5 {
+							diff.Lost = append(diff.Lost, w)
+						}
+					}
+					for _, w := range pa {
+						if !slices.Contains(diff.Added, w) && len(diff.Added) < 5 {
+							diff.Added = append(diff.Added, w)
+						}
+					}
+				}
+			}
 			rec := map[string]any{"ev": "attach", "id": fmt.Sprintf("%s|%s|%s", causeOf(local, differing), fn, d), "file": fn, "built": strings.Join(built, " "), "lost": diff.Lost, "added": diff.Added, "error": ""}
 			if err != nil {
 				rec["error"] = err.Error()
@@ -449,8 +476,11 @@ func checkC06(e *Env, r *Report) {
 			recs = append(recs, map[string]any{"ev": "attach", "id": fmt.Sprintf("%s|%s|exec %s|%s", causeS, host, strings.Join(targets, " "), d), "file": host, "built": strings.Join(gen, " "), "lost": lost, "added": added, "error": errs})
 		}
 		b.Drop()
+		_ = os.RemoveAll(ov)
 	}
 	r.Coverage["profiles_with_exec_path"] = nProfiles
+	r.Coverage["attachments_compiled_by_reference_parser"] = nParser
+	r.Coverage["attachments_reference_parser_skipped"] = nParserSkipped
 	r.Coverage["exec_directives"] = nExec
 	// replay of generated preambles (MC_Resolve) through the real userspace builder
 	res, err := e.RunTLC(TLCOpts{Module: "MC_Resolve", Workers: 12, Timeout: 20 * time.Minute, Env: map[string]string{"VERIF_RESOLVE_LEN": "3"}})
@@ -612,4 +642,70 @@ func causeOf(local *aareEnv, differing map[string]bool) string {
 		return "resolver"
 	}
 	return "tunable:" + strings.Join(cs, ",")
+}
+
+var reAareLine = regexp.MustCompile(`(?m)^aare: .*?   ->   (.*)$`)
+
+// parserAttachment: the expression apparmor_parser compiles for the attachment of a stub profile (policy
+// directory ov, preamble = the tunables plus the variable lines of the source profile).
+func parserAttachment(e *Env, ov string, items []Item, att string) (*regexp.Regexp, error) {
+	var sb strings.Builder
+	sb.WriteString("abi <abi/3.0>,\ninclude <tunables/global>\n")
+	for _, it := range items {
+		if it.T == "var" && it.Depth == 0 {
+			sb.WriteString(strings.TrimSpace(it.Raw) + "\n")
+		}
+	}
+	sb.WriteString("profile vstub " + att + " {\n}\n")
+	f, err := os.CreateTemp(ov, "vstub-")
+	if err != nil {
+		return nil, err
+	}
+	name := f.Name()
+	_, _ = f.WriteString(sb.String())
+	_ = f.Close()
+	defer os.Remove(name)
+	cmd := exec.Command("/usr/sbin/apparmor_parser", "-Q", "-K", "-D", "rule-exprs", "-b", ov, "-I", ov, name)
+	cmd.Dir = ov
+	out, err := cmd.CombinedOutput()
+	if err != nil {
+		return nil, fmt.Errorf("%v %s", err, tail(string(out), 200))
+	}
+	m := reAareLine.FindStringSubmatch(string(out))
+	if m == nil {
+		return nil, fmt.Errorf("no expression in the parser's output")
+	}
+	return regexp.Compile("^(?:" + m[1] + ")$")
+}
+
+func parserAttachDiff(e *Env, ov string, items []Item, built []string, local, env *aareEnv) (lost, added []string, err error) {
+	if len(built) != 1 || strings.ContainsAny(built[0], "\"") {
+		return nil, nil, fmt.Errorf("not a single unquoted attachment")
+	}
+	reA, err := parserAttachment(e, ov, items, "@{exec_path}")
+	if err != nil {
+		return nil, nil, err
+	}
+	reB, err := parserAttachment(e, ov, items, built[0])
+	if err != nil {
+		return nil, nil, err
+	}
+	ws, err := local.witnesses("@{exec_path}", 3000)
+	if err != nil {
+		return nil, nil, err
+	}
+	wb, err := env.witnesses(built[0], 3000)
+	if err != nil {
+		return nil, nil, err
+	}
+	for _, w := range append(ws, wb...) {
+		a, b := reA.MatchString(w), reB.MatchString(w)
+		if a && !b && len(lost) < 5 && !slices.Contains(lost, w) {
+			lost = append(lost, w)
+		}
+		if b && !a && len(added) < 5 && !slices.Contains(added, w) {
+			added = append(added, w)
+		}
+	}
+	return lost, added, nil
 }
